@@ -264,9 +264,16 @@ fn sizes(rng: &mut Rng, rounds: u64) -> Result<u64, String> {
         if size == 0 || size > 9 { continue; }
         let cs = consts(usize_ty, &[a as i128, b as i128]);
         // (1) one party per array element, array size and loop trip count = N
-        let src = format!("const N: usize = {text};\npub fn main(x: [u8; N]) -> u16 {{\n    let mut s = 0u16;\n    for e in x {{ s = s + (e as u16) }}\n    let a = [3u16; N];\n    for e in a {{ s = s + e }}\n    s\n}}");
-        let lit_src = src.replace("const N: usize = ", "const UNUSED__: usize = ").replace("; N]", &format!("; {size}]"));
-        let lit_src = lit_src.lines().skip(1).collect::<Vec<_>>().join("\n");
+        // every other round the external values are reached through alias constants (`const A0: usize = PARTY_0::V;`): a constant
+        // defined in terms of other constants, the first of which is a plain alias of an external value
+        let (defs, text) = if (round / exprs.len() as u64) % 2 == 1 {
+            ("const A0: usize = PARTY_0::V;\nconst B0: usize = PARTY_1::V;\n", text.replace("PARTY_0::V", "A0").replace("PARTY_1::V", "B0"))
+        } else {
+            ("", text.to_string())
+        };
+        let body = "pub fn main(x: [u8; N]) -> u16 {\n    let mut s = 0u16;\n    for e in x { s = s + (e as u16) }\n    let a = [3u16; N];\n    for e in a { s = s + e }\n    s + (N as u16)\n}";
+        let src = format!("{defs}const N: usize = {text};\n{body}");
+        let lit_src = body.replace("; N]", &format!("; {size}]")).replace("(N as u16)", &format!("({size}usize as u16)"));
         let with_consts = catch_unwind(AssertUnwindSafe(|| garble_lang::compile_with_constants(&src, cs.clone())));
         let prg = match with_consts {
             Err(_) => return Err(format!("compile_with_constants panics for\n{src}\nwith PARTY_0::V = {a}, PARTY_1::V = {b}")),
@@ -283,7 +290,7 @@ fn sizes(rng: &mut Rng, rounds: u64) -> Result<u64, String> {
         }
         for trial in 0..4u64 {
             let inputs: Vec<Vec<bool>> = (0..size).map(|k| { let v = ((k * 37 + trial * 11 + a) % 200) as u8; (0..8).map(|i| (v >> (7 - i)) & 1 == 1).collect() }).collect();
-            let expected: u64 = (0..size).map(|k| (k * 37 + trial * 11 + a) % 200).sum::<u64>() + 3 * size;
+            let expected: u64 = (0..size).map(|k| (k * 37 + trial * 11 + a) % 200).sum::<u64>() + 3 * size + size;
             let out = prg.circuit.eval(&inputs);
             let out2 = lit_prg.circuit.eval(&inputs);
             if out[0] != out2[0] || out[161..] != out2[161..] {
